@@ -32,4 +32,46 @@ THEOREM AtMostOneWinner ==
 <1>2. MoreSpecific(anc, x, y) BY <1>1 DEF Winners
 <1>3. MoreSpecific(anc, y, x) BY <1>1 DEF Winners
 <1> QED BY <1>1, <1>2, <1>3, Asymmetric
+
+(* a winner is not dominated by anybody *)
+THEOREM WinnerNotDominated ==
+    \A anc, A : (\A x, y \in A : DOMAIN x.vp = DOMAIN y.vp) =>
+        \A x \in Winners(anc, A) : \A y \in A \ {x} : ~MoreSpecific(anc, y, x)
+<1> SUFFICES ASSUME NEW anc, NEW A, \A x, y \in A : DOMAIN x.vp = DOMAIN y.vp,
+                    NEW x \in Winners(anc, A), NEW y \in A \ {x}
+             PROVE ~MoreSpecific(anc, y, x)
+    OBVIOUS
+<1>1. x \in A /\ MoreSpecific(anc, x, y) BY DEF Winners
+<1> QED BY <1>1, Asymmetric
+
+(* ---- next ---- *)
+IsApplicable(anc, x, t) == \A i \in DOMAIN t : x.vp[i] \in anc[t[i]]
+StrictlyMoreGeneral(anc, e, x) ==
+    /\ \A i \in DOMAIN x.vp : e.vp[i] \in anc[x.vp[i]]
+    /\ \E i \in DOMAIN x.vp : e.vp[i] # x.vp[i]
+Transitive(anc) == \A a, b, c : (a \in anc[b] /\ b \in anc[c]) => a \in anc[c]
+Antisymmetric(anc) == \A a, b : (a \in anc[b] /\ b \in anc[a]) => a = b
+
+(* a definition is never its own next candidate *)
+THEOREM NextExcludesSelf == \A anc, x : ~StrictlyMoreGeneral(anc, x, x)
+  BY DEF StrictlyMoreGeneral
+
+(* whatever a definition applies to, its next candidates apply to: calling next is always type-correct *)
+THEOREM NextCandidatesApplicable ==
+    \A anc, e, x, t : (Transitive(anc) /\ DOMAIN t = DOMAIN x.vp
+                        /\ StrictlyMoreGeneral(anc, e, x) /\ IsApplicable(anc, x, t)) => IsApplicable(anc, e, t)
+  BY DEF Transitive, StrictlyMoreGeneral, IsApplicable
+
+(* ... and the definition is more specific than each of them: next moves strictly up *)
+THEOREM NextCandidatesLessSpecific ==
+    \A anc, e, x : (Antisymmetric(anc) /\ DOMAIN e.vp = DOMAIN x.vp /\ StrictlyMoreGeneral(anc, e, x)) => MoreSpecific(anc, x, e)
+<1> SUFFICES ASSUME NEW anc, NEW e, NEW x, Antisymmetric(anc), DOMAIN e.vp = DOMAIN x.vp, StrictlyMoreGeneral(anc, e, x)
+             PROVE MoreSpecific(anc, x, e)
+    OBVIOUS
+<1>1. \A i \in DOMAIN x.vp : ~ProperBase(anc, x.vp[i], e.vp[i])
+    BY DEF StrictlyMoreGeneral, ProperBase, Antisymmetric
+<1>2. \E i \in DOMAIN x.vp : ProperBase(anc, e.vp[i], x.vp[i])
+    BY DEF StrictlyMoreGeneral, ProperBase
+<1> QED BY <1>1, <1>2 DEF MoreSpecific
 =============================================================================
+
